@@ -12,6 +12,9 @@ def build(repo, findings):
     ex = u.source('brush-core/src/expansion.rs')
     va = u.source('brush-core/src/variables.rs')
     wd = u.source('brush-parser/src/word.rs')
+    ev = u.source('brush-core/src/env.rs')
+    ev.require_text(r'pub enum EnvironmentLookup \{(?:[^}]|\n)*?\bAnywhere,(?:[^}]|\n)*?\bOnlyInGlobal,(?:[^}]|\n)*?\bOnlyInCurrentLocal,(?:[^}]|\n)*?\bOnlyInLocal,', 'projected variants of EnvironmentLookup')
+    ev.require_text(r'pub enum EnvironmentScope \{(?:[^}]|\n)*?\bLocal,(?:[^}]|\n)*?\bGlobal,(?:[^}]|\n)*?\bCommand,', 'projected variants of EnvironmentScope')
     u.raw(HEADER)
     u.add(va.item(r'^pub enum ShellValueUnsetType ', 'ShellValueUnsetType').r1(keep_derive=()))
     sv = va.item(r'^pub enum ShellValue ', 'ShellValue').r1(keep_derive=())
@@ -29,7 +32,7 @@ def build(repo, findings):
     f.resub(r'self\s*\.shell\s*\.env\(\)\s*\.get\(name\)', 'env_get(&*self.shell, name)', 'R14', 'environment lookup -> stub', count=None)
     f.resub(r'env_get\(&\*self\.shell, name\)\s*\.is_some_and\(\|(\([^|]*\))\| ([^;]*)\);', r'match env_get(&*self.shell, name) { Some(\1) => \2, None => false };', 'R14', 'Option::is_some_and(|pat| e) -> match { Some(pat) => e, None => false } (std)', count=None)
     f.resub(r'self\.shell\.env_mut\(\)\.update_or_add_array_element\(\s*variable_name,\s*index,\s*value,.*?\)\n', 'env_update_or_add_array_element(&mut *self.shell, variable_name, index, value)\n', 'R14', 'environment write -> stub', flags=16)
-    f.resub(r'self\.shell\.env_mut\(\)\.update_or_add\(\s*variable_name,\s*variables::ShellValueLiteral::Scalar\(value\),.*?\)\n', 'env_update_or_add_scalar(&mut *self.shell, variable_name, value)\n', 'R14', 'environment write -> stub', flags=16)
+    f.resub(r'self\.shell\.env_mut\(\)\.update_or_add\(\s*variable_name,\s*variables::ShellValueLiteral::Scalar\(value\),\s*\|_\| Ok\(\(\)\),\s*(env::EnvironmentLookup::\w+),\s*(env::EnvironmentScope::\w+),?\s*\)\n', r'env_update_or_add_scalar(&mut *self.shell, variable_name, value, \1, \2)\n', 'R14', 'environment write -> stub that keeps the lookup policy and the creation scope', flags=16)
     f.sig(fn, ret='res', ensures=[
         C('C06,C09 subscript-kind-follows-the-declared-kind-of-the-variable', '''match *parameter {
     brush_parser::word::Parameter::NamedWithIndex { name, index } => final(self).evals@ == old(self).evals@.push(IndexEval { index: index@,
